@@ -51,7 +51,7 @@ RUN_ENV = {
     "LSAN_OPTIONS": "exitcode=%d" % CRASH_RC,
 }
 RULE = ("engine P: Hypothesis draws translation units of mock functions (arity 0..15, passing mode per position from "
-        "{int, int&, int const&, int&&, int*, Tr, Tr&, Tr const&, Tr&&, unique_ptr<int>, unique_ptr<int>&&}, const / "
+        "{int, int&, int const&, int&&, int*, Tr, Tr&, Tr const&, Tr&&, unique_ptr<int>, unique_ptr<int>&&, reference_wrapper<int>, reference_wrapper<int>&}, const / "
         "overloaded / interface-implementing, return void / int / T& returning _k, terminal RETURN / THROW, plain or LR_ "
         "flavour per clause, capture checks); each function's driver carries the oracle inside WITH, SIDE_EFFECT, "
         "RETURN/THROW and checks the caller-side post-state. non-trivial (C09): a function with arity >= 2 and >= 2 "
